@@ -9,7 +9,7 @@ def pc_n(n: OneOf(Seq(Nat, "list", min_len=1), Seq(Nat, "ndarray", min_len=1))) 
     canary(close(result, vsum(n * (n - 1)) / (vsum(n) * vsum(n))), name="N^2")
 
 
-@contract("pyrepseq.stats.pc", props=["C02", "C06"], scope="samples")
+@contract("pyrepseq.stats.pc", props=["C02", "C06"], scope="samples", opaque_on_tables=True)
 def pc(array: OneOf(Seq(Str, "list", min_len=2), Seq(Str, "ndarray", min_len=2), Seq(Int, "list", min_len=2),
                     TableT(["c0"], min_rows=2), TableT(["c0", "c1"], min_rows=2), TableT(["c0", "c1", "c2"], min_rows=2),
                     TupleT(Seq(Str, "list", min_len=2), Seq(Str, "list", min_len=2))),
@@ -40,7 +40,7 @@ def pc(array: OneOf(Seq(Str, "list", min_len=2), Seq(Str, "ndarray", min_len=2),
             assume_only=True)
 
 
-@contract("pyrepseq.stats.pc_joint", props=["C02"], scope="tables_on")
+@contract("pyrepseq.stats.pc_joint", props=["C02"], scope="tables_on", opaque_on_tables=True)
 def pc_joint(df: OneOf(TableT(["a"], min_rows=2), TableT(["a", "b"], min_rows=2), TableT(["a", "b", "c"], min_rows=2),
                        TableT(["a", "b", "c", "d"], min_rows=2)),
              on: OneOf(Const(["a"]), Const(["a", "b"]), Const(["c", "a"]), Const(["a", "b", "c", "d"])),
@@ -80,7 +80,7 @@ def stdpc_n(n: Seq(Nat, "ndarray", min_len=1)) -> Real:
     canary(close(result, post("pyrepseq.stats.varpc_n", n)), name="no-sqrt")
 
 
-@contract("pyrepseq.stats.stdpc", props=["C06"], scope="samples4")
+@contract("pyrepseq.stats.stdpc", props=["C06"], scope="samples4", opaque_on_tables=True)
 def stdpc(array: OneOf(Seq(Str, "list", min_len=4), Seq(Str, "ndarray", min_len=4), Seq(Int, "list", min_len=4))) -> Real:
     raises(None)
     ensures(implies(post("pyrepseq.stats.varpc_n", ucounts(array)) >= 0,
